@@ -91,8 +91,9 @@ def generate(rng, tier):
         # SCALE: one very long request (chunked fast paths that only engage beyond some length; their remainder chunk may
         # be shorter than a delay), followed by ordinary ones that must still line up
         at = rng.randrange(len(ops) + 1)
-        ops[at:at] = [{"op": "get", "n": 2 ** rng.choice([17, 18, 18, 19]) * rng.choice([1, 1, 3]) + rng.choice([1, 5, 20, 33, 1000])},
-                      {"op": "get", "n": maxd + rng.choice([1, 16, 200])}]
+        n_long = 2 ** rng.choice([17, 18, 18, 19]) * rng.choice([1, 1, 3]) + rng.choice([0, 0, 1, 5, 20, 33, 1000])
+        ops[at:at] = [{"op": "get", "n": n_long} for _ in range(rng.choice([1, 1, 3, 4]))] + \
+                     [{"op": "get", "n": maxd + rng.choice([1, 16, 200])}]
     if bg_late:
         ops.insert(rng.randint(0, len(ops)), {"op": "configure_bg"})
     return {"seams": {"entropy_salt": rng.randrange(1 << 20), "scratch": "c15"},
